@@ -1,6 +1,7 @@
 import Crusta.Model.Readers
 import Crusta.Proofs.RoundTrip
 import Crusta.Proofs.ReaderWF
+import Crusta.Proofs.ReaderWFApx
 
 /-!
 # C13 — instance readers are total and faithful (property theorems)
@@ -187,5 +188,11 @@ returns a framework then every attack it holds is between declared arguments —
 rejection theorems above and `iccma_wellformed_accepted(_general)` this is "accepts exactly" -/
 theorem iccma_accepted_is_wellformed (bs : List UInt8) (fw : IccmaFw) (h : readIccma bs = .ok fw) :
     ∀ p ∈ fw.atts, p.1 < fw.n ∧ p.2 < fw.n := readIccma_wfa bs fw h
+
+/-- the same for the Aspartix reader: whatever the bytes, a framework that is returned has distinct
+labels, attacks between declared arguments only, and no attack twice -/
+theorem apx_accepted_is_wellformed (bs : List UInt8) (fw : ApxFw) (h : readApx bs = .ok fw) :
+    fw.labels.Nodup ∧ (∀ p ∈ fw.atts, p.1 < fw.labels.length ∧ p.2 < fw.labels.length) ∧ fw.atts.Nodup :=
+  readApx_wfa bs fw h
 
 end Crusta.C13
